@@ -112,3 +112,25 @@ def determinism(pids, tier, base_seed):
                        'mismatches': mism, 'harness_errors': errs}, f, indent=1)
             f.write('\n')
     return rc
+
+
+# --------------------------------------------------------------------------
+# every OPEN finding must still reproduce from its committed replay file
+
+def findings():
+    rc = 0
+    for e in core.load_known():
+        if e.get('status') != 'open':
+            continue
+        path = os.path.join(core.VERIF, e['replay'])
+        prop = core.load_prop(e['property'])
+        if hasattr(prop, 'prepare'):
+            prop.prepare()
+        with open(path) as f:
+            rp = json.load(f)
+        res = core.execute_guarded(prop, rp['record'], timeout=1800)
+        ok = any(v['sig'] == rp['signature'] for v in res['violations'])
+        print('finding %s %s: %s' % (e['property'], e['signature'], 'reproduces' if ok else 'STALE (no longer reproduces)'))
+        if not ok:
+            rc = core.EXIT_HARNESS
+    return rc
